@@ -37,6 +37,7 @@ type memConn struct {
 	remote       net.Addr
 	local        net.Addr
 	id           int
+	readChunk    int // > 0: a Read returns at most this many bytes (TCP segmentation)
 }
 
 func newMemConn(id int, remote net.Addr) *memConn {
@@ -60,6 +61,9 @@ func (c *memConn) Read(p []byte) (int, error) {
 			return 0, errConnReset
 		}
 		if len(c.in) > 0 {
+			if c.readChunk > 0 && len(p) > c.readChunk {
+				p = p[:c.readChunk]
+			}
 			n := copy(p, c.in)
 			c.in = c.in[n:]
 			c.consumed += int64(n)
